@@ -35,8 +35,7 @@ def gen(rng, tier):
 
 def top_of_space(rng, count):
     """iteration windows that end exactly at the top of the 32-bit address space (addr + n = 2^32) or one below, over ordinary
-    tables: "everything from addr on".  (Areas that themselves end at 2^32 are outside the domain: the module computes area and
-    register ends in 32-bit arithmetic, where such an end is 0.)"""
+    tables: "everything from addr on".  (Tables whose areas themselves end at 2^32 come from regcommon.at_top.)"""
     TOP = 2**32
     for _ in range(count):
         tab = family_table(rng)
@@ -56,6 +55,8 @@ def gen(rng, tier):
     yield from _gen0(rng, tier)
     yield from top_of_space(rng, 60 if tier == 'thorough' else 12)
     yield from reinit_histories(rng, 300 if tier == 'thorough' else 40)
+    # the same window sweeps over tables whose highest area ends at 2^32 (end addresses are not representable in 32 bits)
+    yield from at_top(_gen0, rng, tier, 120 if tier == 'thorough' else 25)
 
 def nontrivial(c):
     return True
